@@ -17,6 +17,7 @@ import (
 
 	"verif/harness/hx"
 
+	"github.com/KiraCore/sekai/x/gov"
 	govkeeper "github.com/KiraCore/sekai/x/gov/keeper"
 	govtypes "github.com/KiraCore/sekai/x/gov/types"
 	recoverykeeper "github.com/KiraCore/sekai/x/recovery/keeper"
@@ -29,6 +30,9 @@ import (
 	authtypes "github.com/cosmos/cosmos-sdk/x/auth/types"
 	minttypes "github.com/cosmos/cosmos-sdk/x/mint/types"
 )
+
+// block times are nanoseconds; the Coq side sees them relative to baseNs (smaller literals)
+const baseNs int64 = 1700000000_000000000
 
 const nParties = 7 // 0..3 users, 4..5 fresh rotation targets, 6 administrator
 
@@ -60,6 +64,7 @@ type jcase struct {
 type config struct {
 	minTip         uint64
 	pc, pv, pn, se []int
+	rr             []int // addresses with a validator recovery token (they rotate through MsgRotateValidatorByHalfRRTokenHolder)
 }
 
 
@@ -110,6 +115,7 @@ func main() {
 		index[addrs[i].String()] = i
 	}
 	feePayer := sdk.AccAddress("c16_fee_payer_______")
+	rrHolder, rrPoor := sdk.AccAddress("c16_rr_holder_______"), sdk.AccAddress("c16_rr_poor_________")
 	who := func(s string) int {
 		if i, ok := index[s]; ok {
 			return i
@@ -137,10 +143,10 @@ func main() {
 	fund(base, feePayer, sdk.NewCoins(sdk.NewInt64Coin("ukex", 1_000_000_000_000)))
 
 	cfgs := []config{
-		{200, []int{0, 1}, []int{1, 2}, []int{6}, []int{0, 1, 2, 3}},
-		{0, []int{2, 3}, []int{0, 3}, []int{6, 0}, []int{0, 1, 2}},
-		{(1 << 63) + 5, []int{0, 1, 2, 3}, []int{0, 1, 2, 3}, []int{6}, []int{0, 1, 2, 3}},
-		{1000, []int{}, []int{1}, []int{}, []int{1, 3}},
+		{200, []int{0, 1}, []int{1, 2}, []int{6}, []int{0, 1, 2}, []int{3}},
+		{0, []int{2, 3}, []int{0, 3}, []int{6, 0}, []int{0, 1, 2}, []int{3}},
+		{(1 << 63) + 5, []int{0, 1, 2, 3}, []int{0, 1, 2, 3}, []int{6}, []int{0, 1}, []int{2, 3}},
+		{1000, []int{}, []int{1}, []int{}, []int{1, 3}, []int{0, 2}},
 	}
 	applyCfg := func(ctx sdk.Context, c config) {
 		if err := gk.SetNetworkProperty(ctx, govtypes.MinIdentityApprovalTip, govtypes.NetworkPropertyValue{Value: c.minTip}); err != nil {
@@ -163,6 +169,17 @@ func main() {
 		for _, i := range c.se {
 			if _, err := recMS.RegisterRecoverySecret(sdk.WrapSDKContext(ctx), &recoverytypes.MsgRegisterRecoverySecret{
 				Address: addrs[i].String(), Challenge: challengeOf(i), Nonce: "00", Proof: ""}); err != nil {
+				panic(err)
+			}
+		}
+		for _, i := range c.rr {
+			denom := fmt.Sprintf("rr/c16v%d", i)
+			app.RecoveryKeeper.SetRecoveryToken(ctx, recoverytypes.RecoveryToken{Address: addrs[i].String(), Token: denom, RrSupply: sdk.NewInt(1000)})
+			coins := sdk.NewCoins(sdk.NewInt64Coin(denom, 1000))
+			if err := app.BankKeeper.MintCoins(ctx, recoverytypes.ModuleName, coins); err != nil {
+				panic(err)
+			}
+			if err := app.BankKeeper.SendCoinsFromModuleToAccount(ctx, recoverytypes.ModuleName, rrHolder, coins); err != nil {
 				panic(err)
 			}
 		}
@@ -219,7 +236,7 @@ func main() {
 		sn.recs = gk.GetAllIdentityRecords(ctx)
 		var rs []string
 		for _, r := range sn.recs {
-			rs = append(rs, fmt.Sprintf("mkRec %d %d %s %s %s %s", r.Id, who(r.Address), hx.Str(r.Key), hx.Str(r.Value), hx.Z(r.Date.Unix()), addrList(r.Verifiers)))
+			rs = append(rs, fmt.Sprintf("mkRec %d %d %s %s %s %s", r.Id, who(r.Address), hx.Str(r.Key), hx.Str(r.Value), hx.Z(r.Date.UnixNano()-baseNs), addrList(r.Verifiers)))
 		}
 		sn.idx = map[int]map[string]uint64{}
 		var es []string
@@ -237,7 +254,7 @@ func main() {
 		sn.reqs = gk.GetAllIdRecordsVerifyRequests(ctx)
 		var qs []string
 		for _, q := range sn.reqs {
-			qs = append(qs, fmt.Sprintf("mkReq %d %d %d %s %s %s %s", q.Id, who(q.Address), who(q.Verifier), ulist(q.RecordIds), hx.Str(q.Tip.Denom), hx.ZInt(q.Tip.Amount), hx.Z(q.LastRecordEditDate.Unix())))
+			qs = append(qs, fmt.Sprintf("mkReq %d %d %d %s %s %s %s", q.Id, who(q.Address), who(q.Verifier), ulist(q.RecordIds), hx.Str(q.Tip.Denom), hx.ZInt(q.Tip.Amount), hx.Z(q.LastRecordEditDate.UnixNano()-baseNs)))
 		}
 		var bs []string
 		for i := 0; i < nParties-1; i++ {
@@ -268,7 +285,7 @@ func main() {
 		return hx.List(xs)
 	}
 	mkRegister := func(now int64, a int, infos [][2]string) opT {
-		return opT{jop{Kind: "register", Now: now, A: a, Infos: infos}, fmt.Sprintf("ORegister %d %d %s", now, a, infosCoq(infos)),
+		return opT{jop{Kind: "register", Now: now, A: a, Infos: infos}, fmt.Sprintf("ORegister %d %d %s", now-baseNs, a, infosCoq(infos)),
 			func(ctx sdk.Context) error {
 				es := make([]govtypes.IdentityInfoEntry, len(infos))
 				for i, kv := range infos {
@@ -329,7 +346,7 @@ func main() {
 			}}
 	}
 	mkCouncilor := func(now int64, a int, vals []string) opT {
-		return opT{jop{Kind: "claimcouncilor", Now: now, A: a, Keys: vals}, fmt.Sprintf("OClaimCouncilor %d %d %s", now, a, slist(vals)),
+		return opT{jop{Kind: "claimcouncilor", Now: now, A: a, Keys: vals}, fmt.Sprintf("OClaimCouncilor %d %d %s", now-baseNs, a, slist(vals)),
 			func(ctx sdk.Context) error {
 				m := &govtypes.MsgClaimCouncilor{Address: addrs[a], Moniker: vals[0], Username: vals[1], Description: vals[2], Social: vals[3], Contact: vals[4], Avatar: vals[5]}
 				if err := m.ValidateBasic(); err != nil {
@@ -340,7 +357,7 @@ func main() {
 			}}
 	}
 	mkValidator := func(now int64, a int, moniker string) opT {
-		return opT{jop{Kind: "claimvalidator", Now: now, A: a, Str: moniker}, fmt.Sprintf("OClaimValidator %d %d %s", now, a, hx.Str(moniker)),
+		return opT{jop{Kind: "claimvalidator", Now: now, A: a, Str: moniker}, fmt.Sprintf("OClaimValidator %d %d %s", now-baseNs, a, hx.Str(moniker)),
 			func(ctx sdk.Context) error {
 				pk := ed25519.GenPrivKeyFromSecret([]byte(fmt.Sprintf("c16-validator-%d", a))).PubKey()
 				m, err := stakingtypes.NewMsgClaimValidator(moniker, sdk.ValAddress(addrs[a]), pk)
@@ -354,10 +371,12 @@ func main() {
 				return err
 			}}
 	}
+	propHandler := gov.NewApplySetNetworkPropertyProposalHandler(gk)
 	mkKeysProp := func(s string) opT {
 		return opT{jop{Kind: "setkeysprop", Str: s}, fmt.Sprintf("OSetKeysProp %s", hx.Str(s)),
-			func(ctx sdk.Context) error {
-				return gk.SetNetworkProperty(ctx, govtypes.UniqueIdentityKeys, govtypes.NetworkPropertyValue{StrValue: s})
+			func(ctx sdk.Context) error { // the registered proposal handler, as the gov end-blocker calls it
+				return propHandler.Apply(ctx, 1, &govtypes.SetNetworkPropertyProposal{NetworkProperty: govtypes.UniqueIdentityKeys,
+					Value: govtypes.NetworkPropertyValue{StrValue: s}}, sdk.ZeroDec())
 			}}
 	}
 	mkKeysMsg := func(p int, s string) opT {
@@ -386,6 +405,42 @@ func main() {
 			}}
 	}
 
+	mkRotateRR := func(a, b int, good bool) opT {
+		return opT{jop{Kind: "rotaterr", A: a, B: b, Yes: good}, fmt.Sprintf("ORotateRR %d %d %s", a, b, hx.B(good)),
+			func(ctx sdk.Context) error {
+				holder := rrHolder
+				if !good {
+					holder = rrPoor
+				}
+				m := &recoverytypes.MsgRotateValidatorByHalfRRTokenHolder{RrHolder: holder.String(), Address: addrs[a].String(), Recovery: addrs[b].String()}
+				_, err := recMS.RotateValidatorByHalfRRTokenHolder(sdk.WrapSDKContext(ctx), m)
+				return err
+			}}
+	}
+	// genesis round trip of the gov module in the middle of a history: export, wipe the identity stores, import
+	idPrefixes := [][]byte{govtypes.KeyPrefixIdentityRecord, govtypes.KeyPrefixIdentityRecordByAddress, govtypes.KeyPrefixIdRecordVerifyRequest,
+		govtypes.KeyPrefixIdRecordVerifyRequestByRequester, govtypes.KeyPrefixIdRecordVerifyRequestByApprover,
+		govtypes.KeyLastIdentityRecordId, govtypes.KeyLastIdRecordVerifyRequestId}
+	mkGenesis := func() opT {
+		return opT{jop{Kind: "genesis"}, "OGenesis",
+			func(ctx sdk.Context) error {
+				gs := gov.ExportGenesis(ctx, gk)
+				st := ctx.KVStore(govKey)
+				for _, pf := range idPrefixes {
+					var keys [][]byte
+					it := sdk.KVStorePrefixIterator(st, pf)
+					for ; it.Valid(); it.Next() {
+						keys = append(keys, append([]byte{}, it.Key()...))
+					}
+					it.Close()
+					for _, k := range keys {
+						st.Delete(k)
+					}
+				}
+				return gov.InitGenesis(ctx, gk, *gs)
+			}}
+	}
+
 	// ---------------------------------------------------------------- running one history
 	var coqCases strings.Builder
 	var js []jcase
@@ -408,15 +463,15 @@ func main() {
 	start := func(cfg int) *hist {
 		ctx, _ := base.CacheContext()
 		applyCfg(ctx, cfgs[cfg])
-		h := &hist{ctx: ctx, cfg: cfg, now: 1700000100}
+		h := &hist{ctx: ctx, cfg: cfg, now: 1700000100_000000000}
 		h.last = snapshot(ctx)
 		h.steps = append(h.steps, h.last.coq) // element 0 = starting snapshot
 		return h
 	}
 	do := func(h *hist, o opT) bool {
-		ctx := h.ctx.WithBlockTime(time.Unix(h.now, 0).UTC())
+		ctx := h.ctx.WithBlockTime(time.Unix(0, h.now).UTC())
 		if o.j.Now != 0 {
-			ctx = h.ctx.WithBlockTime(time.Unix(o.j.Now, 0).UTC())
+			ctx = h.ctx.WithBlockTime(time.Unix(0, o.j.Now).UTC())
 		}
 		cc, write := ctx.CacheContext()
 		var err error
@@ -462,7 +517,7 @@ func main() {
 	// ---------------------------------------------------------------- generators
 	keyPool := []string{"moniker", "Moniker", "MONIKER", "username", "UserName", "twitter", "Twitter", "tWiTtEr", "web", "a_b", "A_B", "description"}
 	badKeys := []string{"", "1bad", "bad-key", "sp ace", "_x"}
-	valPool := []string{"alice", "bob", "carol", "Alice", "x", "y", "", "same", "abcdefghijklmnopqrstuvwxyz0123456", "abcdefghijklmnopqrstuvwxyz012345"}
+	valPool := []string{"alice", "bob", "carol", "Alice", "ALICE", " alice", "alice ", "x", "y", "", "same", "abcdefghijklmnopqrstuvwxyz0123456", "abcdefghijklmnopqrstuvwxyz012345"}
 	keySets := []string{"moniker,username", "moniker,username,twitter", "moniker,username,web,twitter", "moniker", "moniker,twitter", "Moniker,username", "username", "", "moniker,username,a_b", "moniker,,username", "moniker,username,description"}
 	pick := func(xs []string) string { return xs[rng.Intn(len(xs))] }
 	spell := func(k string) string { // a random spelling of a key
@@ -532,7 +587,7 @@ func main() {
 		}
 		nextTarget := 4
 		for i := 0; i < nops; i++ {
-			h.now += int64(rng.Intn(3))
+			h.now += []int64{0, 0, 1, 1, 999_999_999, 1_000_000_000, 1_000_000_001, 2_000_000_000}[rng.Intn(8)] // several operations per block time; +-1 ns and +-1 s around stored dates
 			user := rng.Intn(4)
 			if rng.Chance(6) {
 				user = 4 + rng.Intn(2)
@@ -543,12 +598,57 @@ func main() {
 				if rng.Chance(15) {
 					tgt = rng.Intn(6)
 				}
-				if do(h, mkRotate(src, tgt, !rng.Chance(12))) && tgt == nextTarget && nextTarget < 5 {
+				if rng.Chance(60) && len(h.last.idx[src]) > 0 { // the records that move carry verifications and a pending request
+					var own []uint64
+					for _, id := range h.last.idx[src] {
+						own = append(own, id)
+					}
+					sort.Slice(own, func(i, j int) bool { return own[i] < own[j] })
+					v := rng.Intn(4)
+					amt := int64(cfgs[cfg].minTip%100000) + 1
+					if do(h, mkRequest(src, v, []uint64{own[rng.Intn(len(own))]}, "ukex", amt)) {
+						do(h, mkHandle(v, h.last.reqs[len(h.last.reqs)-1].Id, true))
+					}
+					do(h, mkRequest(src, rng.Intn(4), []uint64{own[rng.Intn(len(own))]}, "utip", amt))
+					do(h, mkRequest(rng.Intn(4), src, nil, "utip", amt)) // usually rejected (no ids); harmless
+				}
+				isRR := false
+				for _, x := range cfgs[cfg].rr {
+					if x == src {
+						isRR = true
+					}
+				}
+				if rng.Chance(10) {
+					isRR = !isRR // the wrong entry point for this address: must be rejected
+				}
+				var ok bool
+				if isRR {
+					ok = do(h, mkRotateRR(src, tgt, !rng.Chance(12)))
+				} else {
+					ok = do(h, mkRotate(src, tgt, !rng.Chance(12)))
+				}
+				if ok && tgt == nextTarget && nextTarget < 5 {
 					nextTarget++
 				}
 				continue
 			}
-			switch k := rng.Intn(100); {
+			if rng.Chance(3) {
+				do(h, mkGenesis())
+				continue
+			}
+			k := rng.Intn(100)
+			if k >= 60 && k < 88 && len(h.last.reqs) == 0 && rng.Chance(75) {
+				k = 40 // nothing is pending: make a request instead of handling / cancelling nothing
+			}
+			if k >= 37 && k < 60 && len(h.last.idx[user]) == 0 && rng.Chance(80) {
+				for u := 0; u < 6; u++ { // a requester that has records
+					if len(h.last.idx[(user+u)%6]) > 0 {
+						user = (user + u) % 6
+						break
+					}
+				}
+			}
+			switch {
 			case k < 30: // register / edit
 				var infos [][2]string
 				for j := 0; j < 1+rng.Intn(3); j++ {
@@ -585,6 +685,9 @@ func main() {
 				for j := 0; j < 1+rng.Intn(2) && len(own) > 0; j++ {
 					rids = append(rids, own[rng.Intn(len(own))])
 				}
+				if rng.Chance(3) {
+					rids = append(rids, []uint64{0, 1 << 63, 1<<64 - 1}[rng.Intn(3)])
+				}
 				if rng.Chance(12) { // somebody else's or a missing record
 					rids = append(rids, uint64(1+rng.Intn(12)))
 				}
@@ -594,6 +697,8 @@ func main() {
 				denom := denoms[rng.Intn(2)]
 				var amt int64
 				switch a := rng.Intn(20); {
+				case a < 4: // exactly at / one below / one above the configured minimum
+					amt = int64(cfgs[cfg].minTip%100000) + int64(rng.Intn(3)) - 1
 				case a < 12:
 					amt = int64(cfgs[cfg].minTip%100000) + int64(rng.Intn(400))
 				case a < 14:
@@ -747,6 +852,56 @@ func main() {
 		do(h, mkCancel(0, 1))
 		finish(h, "scripted:rotation-foreign-request")
 	}
+	{
+		// token-holder rotation (MsgRotateValidatorByHalfRRTokenHolder) with pending requests in both roles,
+		// a genesis round trip in the middle, and stored dates probed at exactly / +1 ns
+		h := start(0)
+		do(h, mkRegister(h.now, 3, [][2]string{{"Moniker", "val3"}, {"twitter", "t3"}}))
+		do(h, mkRegister(h.now, 0, [][2]string{{"moniker", "alice"}, {"web", "w"}}))
+		do(h, mkRequest(3, 0, []uint64{1, 2}, "ukex", 300))
+		do(h, mkRequest(0, 3, []uint64{3}, "utip", 200))
+		do(h, mkRequest(0, 2, []uint64{4}, "ukex", 199)) // one below the minimum
+		do(h, mkRequest(0, 2, []uint64{4}, "ukex", 200)) // exactly the minimum
+		do(h, mkRotateRR(3, 5, false))
+		do(h, mkRotate(3, 4, true)) // wrong entry point for a token address
+		do(h, mkRotateRR(0, 5, true))
+		do(h, mkRotateRR(3, 5, true))
+		do(h, mkGenesis())
+		do(h, mkHandle(3, 2, true)) // the old verifier address
+		do(h, mkHandle(5, 2, true))
+		do(h, mkRegister(h.now, 0, [][2]string{{"web", "w"}})) // same value, same block time: request 3 stays and can be approved
+		do(h, mkHandle(2, 3, true))
+		do(h, mkRequest(0, 2, []uint64{4}, "ukex", 200))
+		h.now++ // one nanosecond later
+		do(h, mkRegister(h.now, 0, [][2]string{{"web", "w"}})) // same value, later date: approval is auto-rejected, tip still paid
+		do(h, mkGenesis())
+		do(h, mkHandle(2, 4, true))
+		do(h, mkRegister(h.now, 5, [][2]string{{"TWITTER", "t5"}})) // the new owner edits: request 1 is cancelled and refunded to 5
+		do(h, mkCancel(3, 1))
+		do(h, mkDelete(5, nil))
+		do(h, mkRegister(h.now, 5, [][2]string{{"twitter", "again"}})) // new id, never a reused one
+		do(h, mkRotateRR(5, 3, true))
+		finish(h, "scripted:rr-rotation-genesis-time")
+	}
+	{
+		// verified records and pending requests (as requester and as verifier) through BOTH rotation entry points
+		h := start(0)
+		do(h, mkRegister(h.now, 0, [][2]string{{"moniker", "alice"}, {"web", "w0"}}))
+		do(h, mkRegister(h.now, 3, [][2]string{{"moniker", "val3"}, {"web", "w3"}}))
+		do(h, mkRequest(0, 3, []uint64{1, 2}, "ukex", 200))
+		do(h, mkHandle(3, 1, true)) // records 1,2 verified by 3
+		do(h, mkRequest(3, 0, []uint64{3}, "ukex", 200))
+		do(h, mkHandle(0, 2, true)) // record 3 verified by 0
+		do(h, mkRequest(0, 3, []uint64{2}, "utip", 250))
+		do(h, mkRequest(3, 0, []uint64{4}, "utip", 250))
+		do(h, mkRotate(0, 4, true))   // secret path: 0 -> 4
+		do(h, mkRotateRR(3, 5, true)) // token-holder path: 3 -> 5
+		do(h, mkHandle(5, 3, true))
+		do(h, mkHandle(4, 4, false))
+		do(h, mkRegister(h.now+1, 4, [][2]string{{"web", "w0"}})) // same value: verifications dropped, nothing cancelled
+		do(h, mkRegister(h.now+2, 5, [][2]string{{"web", "w5"}})) // changed
+		finish(h, "scripted:verified-records-through-rotations")
+	}
 	// ---- systematic sweep of unique-key list edits: new key at every position (front / middle / end),
 	// old keys permuted or not, through the single-property path and through MsgSetNetworkProperties,
 	// with and without two addresses already holding the same value under the candidate key
@@ -798,7 +953,7 @@ func main() {
 		if i == len(cfgs)-1 {
 			sep = ""
 		}
-		pre.WriteString(fmt.Sprintf("  mkCfg %s %s %s %s %s %s %s %s%s\n", hx.ZU(c.minTip), zlist(c.pc), zlist(c.pv), zlist(c.pn), zlist([]int{0, 1, 2, 3}), zlist(c.se), hx.B(delFix), hx.B(msgGuard), sep))
+		pre.WriteString(fmt.Sprintf("  mkCfg %s %s %s %s %s %s %s %s %s%s\n", hx.ZU(c.minTip), zlist(c.pc), zlist(c.pv), zlist(c.pn), zlist([]int{0, 1, 2, 3}), zlist(c.se), hx.B(delFix), hx.B(msgGuard), zlist(c.rr), sep))
 	}
 	pre.WriteString("].\n")
 	out.WriteFile("pre.v", pre.String())
